@@ -58,18 +58,18 @@ def run(seed=0, tier="quick", aimed=None):
         P, Q = _eval2(p, X, Y), _eval2(q, X, Y)
         c = float(r.uniform(0.1, 2.0))
         extra = {"h": h, "grid": [ny, nx], "coeffs": [impl.tolist(p), impl.tolist(q)], "c": c}
-        out = np.zeros((ny, nx))
+        out = r.normal(size=(ny, nx))   # output arrays start dirty: the kernel must overwrite its region
         spne.gen_diffusion_flux_pyst_kernel_2d(real_t=np.float64, reset_ghost_zone=False)(
             diffusion_flux=out, field=P, prefactor=c / h**2)
         e = impl.relerr(out[I], np.full_like(out[I], c * (2 * p[3] + 2 * p[5]))); cases += 1
         if e > tol:
             return fail("diffusion_flux_2d", e, extra)
-        out = np.zeros((ny, nx))
+        out = r.normal(size=(ny, nx))   # output arrays start dirty: the kernel must overwrite its region
         spne.gen_inplane_field_curl_pyst_kernel_2d(real_t=np.float64)(curl=out, field=np.array([P, Q]), prefactor=0.5 / h)
         e = impl.relerr(out[I], (_dx2(q, X, Y) - _dy2(p, X, Y))[I]); cases += 1
         if e > tol:
             return fail("inplane_field_curl_2d", e, extra)
-        out2 = np.zeros((2, ny, nx))
+        out2 = r.normal(size=(2, ny, nx))   # output arrays start dirty: the kernel must overwrite its region
         spne.gen_outplane_field_curl_pyst_kernel_2d(real_t=np.float64, reset_ghost_zone=False)(
             curl=out2, field=P, prefactor=0.5 / h)
         e = max(impl.relerr(out2[0][I], _dy2(p, X, Y)[I]), impl.relerr(out2[1][I], -_dx2(p, X, Y)[I])); cases += 1
@@ -155,19 +155,19 @@ def run(seed=0, tier="quick", aimed=None):
         F = np.array([_eval3(cc_, X, Y, Z) for cc_ in cs])
         D = [_d3(cc_, X, Y, Z) for cc_ in cs]  # D[comp][axis]
         extra = {"h": h, "grid": [nz, ny, nx], "coeffs": [impl.tolist(cc_) for cc_ in cs], "c": c}
-        out = np.zeros((nz, ny, nx))
+        out = r.normal(size=(nz, ny, nx))   # output arrays start dirty: the kernel must overwrite its region
         spne.gen_diffusion_flux_pyst_kernel_3d(real_t=np.float64, reset_ghost_zone=False)(
             diffusion_flux=out, field=F[0], prefactor=c / h**2)
         e = impl.relerr(out[I], np.full_like(out[I], c * 2 * (cs[0][4] + cs[0][5] + cs[0][6]))); cases += 1
         if e > tol:
             return fail("diffusion_flux_3d", e, extra)
-        out3 = np.zeros((3, nz, ny, nx))
+        out3 = r.normal(size=(3, nz, ny, nx))   # output arrays start dirty: the kernel must overwrite its region
         spne.gen_curl_pyst_kernel_3d(real_t=np.float64, reset_ghost_zone=False)(curl=out3, field=F, prefactor=0.5 / h)
         want = np.array([D[2][1] - D[1][2], D[0][2] - D[2][0], D[1][0] - D[0][1]])
         e = impl.relerr(out3[(slice(None),) + I], want[(slice(None),) + I]); cases += 1
         if e > tol:
             return fail("curl_3d", e, extra)
-        out = np.zeros((nz, ny, nx))
+        out = r.normal(size=(nz, ny, nx))   # output arrays start dirty: the kernel must overwrite its region
         spne.gen_divergence_pyst_kernel_3d(real_t=np.float64, reset_ghost_zone=False)(divergence=out, field=F, inv_dx=1.0 / h)
         e = impl.relerr(out[I], (D[0][0] + D[1][1] + D[2][2])[I]); cases += 1
         if e > tol:
@@ -189,7 +189,7 @@ def run(seed=0, tier="quick", aimed=None):
         if e > tol:
             return fail("update_vorticity_from_penalised_velocity_3d", e, {**extra, "coeffs_velocity": [impl.tolist(cc_) for cc_ in cs2]})
         om = r.normal(size=(3, nz, ny, nx))
-        out3 = np.zeros((3, nz, ny, nx))
+        out3 = r.normal(size=(3, nz, ny, nx))   # output arrays start dirty: the kernel must overwrite its region
         spne.gen_vorticity_stretching_flux_pyst_kernel_3d(real_t=np.float64)(
             vorticity_stretching_flux_field=out3, vorticity_field=om, velocity_field=F, prefactor=c / (2 * h))
         ws = np.array([c * (om[0] * D[k][0] + om[1] * D[k][1] + om[2] * D[k][2]) for k in range(3)])
@@ -240,7 +240,7 @@ def run(seed=0, tier="quick", aimed=None):
                 # Laplacian of a quadratic sampled on the simulator's own coordinates
                 q_ = r2.normal(size=dim)
                 P_ = sum(q_[c_] * np.asarray(sim.position_field[c_], dtype=np.float64) ** 2 for c_ in range(dim))
-                out_ = np.zeros(shape)
+                out_ = r2.normal(size=shape)   # output arrays start dirty: the kernel must overwrite its region
                 gen = spne.gen_diffusion_flux_pyst_kernel_2d if dim == 2 else spne.gen_diffusion_flux_pyst_kernel_3d
                 gen(real_t=np.float64, reset_ghost_zone=False)(diffusion_flux=out_, field=P_, prefactor=1.0 / float(sim.dx) ** 2)
                 I_ = (slice(1, -1),) * dim
